@@ -72,6 +72,7 @@ type Ctx struct {
 	Verbose  bool
 	Rec      *Rec
 	curCase  string
+	journal  string
 }
 
 func (c *Ctx) Quick() bool    { return c.Tier != "thorough" }
@@ -100,6 +101,9 @@ func (c *Ctx) Part(name string, n int64, f func(i int64, r *Rng)) {
 			continue
 		}
 		c.curCase = name + ":" + strconv.FormatInt(i, 10)
+		if c.journal != "" {
+			os.WriteFile(c.journal, []byte(c.curCase), 0o644)
+		}
 		c.guarded(func() { f(i, NewRng(c.Seed, HashStr(c.ID), HashStr(name), uint64(i))) })
 	}
 	c.curCase = ""
@@ -375,6 +379,10 @@ type Spec struct {
 	Shards int
 	// InProcess runs the monitor in the parent only (it manages its own children).
 	InProcess bool
+	// DeathIsViolation: a worker process that dies (runtime fatal error, os.Exit) while a
+	// case was running is a violation naming that case (workers journal the case id before
+	// running it); a harness panic still counts as inconclusive.
+	DeathIsViolation bool
 	// Finish, when set, runs in the parent on the merged record (derived counters, coverage
 	// obligations that need the union over shards).
 	Finish func(c *Ctx)
@@ -434,7 +442,7 @@ func Main(spec Spec) {
 	case "run":
 		os.Exit(parent(spec, tier, seed, verbose))
 	case "shard":
-		c := &Ctx{ID: spec.ID, Tier: tier, Seed: seed, Shard: shard, NShards: nshards, Rec: newRec(), Verbose: verbose}
+		c := &Ctx{ID: spec.ID, Tier: tier, Seed: seed, Shard: shard, NShards: nshards, Rec: newRec(), Verbose: verbose, journal: os.Getenv("VERIF_JOURNAL")}
 		spec.Run(c)
 		writeRec(c.Rec, out)
 		os.Exit(0)
@@ -594,6 +602,9 @@ func parent(spec Spec, tier string, seed uint64, verbose bool) int {
 				cmd.Stdout = lf
 				cmd.Stderr = lf
 				cmd.Env = append(os.Environ(), "VERIF_WORK="+work)
+				if spec.DeathIsViolation {
+					cmd.Env = append(cmd.Env, "VERIF_JOURNAL="+outp+".journal")
+				}
 				err := cmd.Start()
 				if err == nil {
 					done := make(chan error, 1)
@@ -620,6 +631,13 @@ func parent(spec Spec, tier string, seed uint64, verbose bool) int {
 			r := <-ch
 			outp := filepath.Join(work, fmt.Sprintf("shard%02d.json", r.i))
 			if r.err != nil {
+				jb, _ := os.ReadFile(outp + ".journal")
+				if spec.DeathIsViolation && len(jb) > 0 && !strings.Contains(r.log, "(harness panic in case") && !strings.Contains(r.err.Error(), "watchdog") {
+					merged.ViolationsAll++
+					merged.Violations = append(merged.Violations, Violation{Property: spec.ID, Class: "worker-process-died", Case: string(jb),
+						Msg: fmt.Sprintf("the worker process died (%v) while running case %s; last output: %s", r.err, jb, lastLines(r.log, 12))})
+					continue
+				}
 				inconclusive = append(inconclusive, fmt.Sprintf("shard %d: %v\n%s", r.i, r.err, r.log))
 				continue
 			}
@@ -764,6 +782,14 @@ func parent(spec Spec, tier string, seed uint64, verbose bool) int {
 		}
 	}
 	return rc
+}
+
+func lastLines(s string, n int) string {
+	lines := strings.Split(strings.TrimSpace(s), "\n")
+	if len(lines) > n {
+		lines = lines[len(lines)-n:]
+	}
+	return strings.Join(lines, " | ")
 }
 
 func sanitize(s string) string {
